@@ -1,3 +1,4 @@
+import F3.Proofs.SkelTieInputs
 import F3.Model.Inputs
 import F3.Spec.Inputs
 import F3.Proofs.Inputs
@@ -339,4 +340,19 @@ example : getProposal exampleManifest { first := 0, initialTable := 0, certs := 
 example : getCommittee exampleManifest { first := 0, initialTable := 0, certs := [⟨1, 3, 0⟩, ⟨3, 4, 0⟩] } exampleEC 2 =
     .ok { table := 0, beacon := 3 } := by decide
 
+end F3.Props.C15
+
+namespace F3.Props.C15
+section Skeletons
+
+/-- **The Go functions this property's models mirror still have the statement structure the models were written
+against**: each regenerated skeleton (pre-order list of statement kinds, `tools/go2lean/skel.go`) equals the pinned
+expectation of `F3/Proofs/SkelTie*.lean`. An added early return, cap, loop or dropped branch in one of these functions
+breaks this obligation even when no regenerated *expression* changes. -/
+theorem code_structure_as_modelled :
+    F3.Gen.SkelInputs.skelGetProposal = F3.SkelTie.SkelInputs.skelGetProposalExpected ∧
+    F3.Gen.SkelInputs.skelPtCidForTipset = F3.SkelTie.SkelInputs.skelPtCidForTipsetExpected :=
+  ⟨F3.SkelTie.SkelInputs.skelGetProposal_expected, F3.SkelTie.SkelInputs.skelPtCidForTipset_expected⟩
+
+end Skeletons
 end F3.Props.C15
